@@ -765,6 +765,12 @@ class Interp:
         if k == 'named':
             n = c[1]
             if n in s.prog.consts: return s.const(s.prog.consts[n])
+            last = n.split('::')[-1]
+            if re.fullmatch(r'[A-Z_][A-Z0-9_]*', last):
+                cands = [k for k in s.prog.consts if k.split('::')[-1] == last]
+                if len(cands) == 1: return s.const(s.prog.consts[cands[0]])
+                fc = [k for k in s.funcs if k.split('::')[-1] == last and not s.funcs[k].params]
+                if len(fc) == 1: return s.call(fc[0], [])
             m = re.fullmatch(r'core::num::<impl (\w+)>::(MAX|MIN)', n)
             if m:
                 w, sg = INT_TYPES[m.group(1)]
